@@ -135,6 +135,31 @@ def _sqrt_const(atom):
 def _is_bool_name(n):
     return isinstance(n, Atom) and n.kind == 'bool'
 
+_FP_P = (1 << 61) - 1
+_FP_VAL = {}
+
+def _fp_val(name, salt):
+    v = _FP_VAL.get((name, salt))
+    if v is None:
+        import random as _r
+        import hashlib as _h
+        r = _r.Random(int(_h.sha1(('%s|%d' % (repr(name) if not isinstance(name, Atom) else repr(name.key), salt)).encode()).hexdigest(), 16))
+        v = _FP_VAL[(name, salt)] = r.randrange(2) if _is_bool_name(name) else r.randrange(1, _FP_P)
+    return v
+
+def _fingerprint(poly, salt):
+    """Image of a polynomial in GF(2^61-1) with every symbol / atom an independent variable (boolean atoms 0/1: the
+    idempotence axiom of __mul__ holds in the image); None when a sqrt(const) atom occurs (its axiom needs a root)."""
+    tot = 0
+    for k, v in poly.t.items():
+        m = v.numerator % _FP_P * pow(v.denominator % _FP_P, _FP_P - 2, _FP_P) % _FP_P
+        for n, e in k:
+            if isinstance(n, Atom) and n.kind == 'sqrt' and _sqrt_const(n) is not None:
+                return None
+            m = m * pow(_fp_val(n, salt), e, _FP_P) % _FP_P
+        tot = (tot + m) % _FP_P
+    return tot
+
 class Poly:
     __slots__ = ('t',)
     def __init__(self, t=None):
@@ -510,6 +535,10 @@ def exact_mode():
 SALTED_KINDS = ('sqrt', 'arccos', 'arcsin', 'arctan', 'arctan2', 'clip', 'sign', 'abs', 'min', 'max', 'floor')
 
 
+class IntegerTruncation(Exception):
+    """The analysed program stores a real-valued quantity into an integer-typed array."""
+
+
 class NonResidue(Exception):
     """A square root of a non-residue was requested: retry the trial with another random point."""
 
@@ -745,6 +774,17 @@ class Rat:
         o = Rat.lift(o)
         if self.fv is not None:
             return self.fv == o.fv
+        if self.d == o.d:
+            return self.n == o.n
+        # cheap refutation first: images under a few fixed evaluation homomorphisms that respect the axioms of the domain
+        # (boolean atoms -> 0/1).  Different images => different values (sound); equal images => decided exactly below
+        if len(self.n.t) * len(o.d.t) + len(o.n.t) * len(self.d.t) > 64:
+            for salt in range(3):
+                a, b, c, d = (_fingerprint(x, salt) for x in (self.n, o.d, o.n, self.d))
+                if None in (a, b, c, d):
+                    break
+                if a * b % _FP_P != c * d % _FP_P:
+                    return False
         return self.n * o.d == o.n * self.d
     def key(self):
         if self.fv is not None:
@@ -1143,7 +1183,8 @@ def find_method(mod, cname, attr, skip_self=False):
 def is_property(node):
     return any(isinstance(d, ast.Name) and d.id == 'property' for d in node.decorator_list)
 
-STRUCT_HOME = {'Transform': 'brax.base', 'Motion': 'brax.base', 'Force': 'brax.base', 'Inertia': 'brax.base'}
+STRUCT_HOME = {'Transform': 'brax.base', 'Motion': 'brax.base', 'Force': 'brax.base', 'Inertia': 'brax.base', 'Actuator': 'brax.base',
+               'Link': 'brax.base', 'DoF': 'brax.base', 'Contact': 'brax.base', 'System': 'brax.base'}
 
 # ----------------------------------------------------------------- jax/numpy primitives
 def P_dot(a, b):
@@ -2055,12 +2096,12 @@ class Interp:
                     for idx in np.ndindex(*x.shape) if x.shape else [()]:
                         out[idx] = Rat(Poly.sym(atom_key('collective', (op, id(ctx), ctx['member'], k_, idx), (op, id(ctx), ctx['member'], k_, idx))))
                     return out if x.shape else out[()]
-                leaves_in = self.leaves(args[0])
-                if len(leaves_in) != 1:
-                    raise OutOfFragment('collective over a pytree inside a named mapped axis')
-                p_ = ph(leaves_in[0])
-                ctx['calls'][ctx['member']].append((op, p_, leaves_in[0]))
-                return self.tree_map(('prim', 'ph', lambda x: p_), args[0])
+                def one_leaf(x):
+                    k2 = len(ctx['calls'][ctx['member']])
+                    p_ = ph(x, k2)
+                    ctx['calls'][ctx['member']].append((op, p_, x))
+                    return p_
+                return self.tree_map(('prim', 'ph', one_leaf), args[0])
             return self.tree_map(('prim', op, lambda x: elemwise(lambda v: uf(op, v, ax), x)), args[0])
         if name in ('jax.sharding.PartitionSpec', 'jax.sharding.NamedSharding', 'jax.sharding.Mesh'):
             return ('opaque', name)
@@ -2820,6 +2861,13 @@ class Interp:
                 self.assign(e, x, env, mod)
         elif isinstance(t, ast.Subscript):
             tgt = self.ev(t.value, env, mod)
+            if isinstance(tgt, np.ndarray) and tgt.dtype.kind in 'iub' and isinstance(v, (Rat, np.ndarray)) and (
+                    isinstance(v, Rat) or v.dtype == object):
+                vals = [Rat.lift(x) for x in asarr(v).ravel()]
+                if not all(x.is_const() and x.constval() == int(x.constval()) for x in vals):
+                    # numpy silently truncates a real value stored into an integer array
+                    raise IntegerTruncation('a real-valued quantity is stored into an array of dtype %s (numpy truncates it silently)' % tgt.dtype)
+                v = np.array([int(x.constval()) for x in vals]).reshape(asarr(v).shape) if asarr(v).shape else int(vals[0].constval())
             tgt[self.ev_index(t.slice, env, mod)] = v
         elif isinstance(t, ast.Attribute):
             tgt = self.ev(t.value, env, mod)
@@ -3256,10 +3304,15 @@ JNP['fromstring'] = _fromstring
 
 
 def _concrete(x, what):
+    if isinstance(x, np.ndarray) and x.dtype != object:
+        return x
     vals = [Rat.lift(v) for v in asarr(x).ravel()]
     if not all(v.is_const() for v in vals):
         raise OutOfFragment('%s of abstract values' % what)
-    return np.array([float(v.constval()) for v in vals]).reshape(asarr(x).shape)
+    cs = [v.constval() for v in vals]
+    if all(c == int(c) for c in cs):
+        return np.array([int(c) for c in cs]).reshape(asarr(x).shape)          # integer data stays integer (ids, indices)
+    return np.array([float(c) for c in cs]).reshape(asarr(x).shape)
 
 
 # less common numpy / jax.numpy names (robustness against rewrites; each is a definition in terms of modelled primitives)
@@ -3279,6 +3332,11 @@ JNP.update({
     'count_nonzero': lambda x, axis=None: np.count_nonzero(_concrete(x, 'count_nonzero'), axis=axis),
     'log2': lambda x: (np.log2(_concrete(x, 'log2')) if all(Rat.lift(v).is_const() for v in asarr(x).ravel()) else unary('log2')(x)),
     'flatnonzero': lambda x: np.flatnonzero(_concrete(x, 'flatnonzero')),
+    # uninitialised storage: native (typed) when the prototype is a native numeric array -- writing a real value into an
+    # integer array truncates it, which the interpreter refuses (IntegerTruncation)
+    'empty_like': lambda x, dtype=None: (np.zeros_like(x) if isinstance(x, np.ndarray) and x.dtype != object and dtype is None
+                                         else P_zeros(asarr(x).shape)),
+    'empty': lambda shape, dtype=None: P_zeros(shape, dtype),
     'ix_': lambda *a: np.ix_(*[np.asarray(_concrete(x, 'ix_')).astype(int) for x in a]),
     'nonzero': lambda x, **k: np.nonzero(_concrete(x, 'nonzero')),
     'argwhere': lambda x, **k: np.argwhere(_concrete(x, 'argwhere')),
